@@ -18,7 +18,7 @@ RULE = ("tasks_limit {1,2,3,10,1000} x 1-3 queues sharing the limit x duration p
         "arrivals, failures, n bucket); trivial = runs where the limit was never reached and limit < 1000")
 ASSUMPTIONS = ["Redis and RabbitMQ are wire-level fakes", "virtual time; 'eventually' restated as: all n jobs executed by sum(d)/limit + max(d) + n*delta + last arrival + 12 s, refill of a freed slot within 3 s"]
 EVAL_COUNTER = "entries_judged"
-REQUIRED = ["entries_judged", "runs_saturated", "arrival_slot_free", "arrival_burst", "refills_judged", "thread_runs", "thread_overrun_runs", "thread_rendezvous_runs", "ttl_expired_while_waiting_for_a_slot"]
+REQUIRED = ["entries_judged", "runs_saturated", "arrival_slot_free", "arrival_burst", "refills_judged", "thread_runs", "thread_overrun_runs", "thread_rendezvous_runs", "ttl_expired_while_waiting_for_a_slot", "runs_with_a_slow_hook_after_every_received_message"]
 CASE_TIMEOUT = 150
 
 LIMITS = [1, 2, 3, 10, 1000]
@@ -39,6 +39,13 @@ def gen_cases(tier, seed):
                           "seed": rnd.randrange(10**6), "latency": None if kind == "mem" else rnd.choice([None, 0.002]),
                           # RabbitMQ takes the consumers away while the worker runs (consumer cancel notification): they come back
                           "srv_cancel": kind == "rabbit" and ci % 3 == 0})
+    # a backlog in every priority class, and a worker whose hook after every received message takes its time (tracing, metrics):
+    # the pause request reaches the consumer while it is already busy with its next message
+    for kind in ("mem", "redis", "rabbit"):
+        for l in (1, 2):
+            for hook in ((0.02,) if tier == "quick" else (0.005, 0.02, 0.2)):
+                cases.append({"kind": kind, "limit": l, "nq": 1, "dur": "equal", "arr": "before", "fail": False, "n": 15, "seed": rnd.randrange(10**6), "latency": None if kind == "mem" else [None, 0.002][l - 1],
+                              "prios": True, "slow_hook": hook, "srv_cancel": False})
     # a message with a time-to-live is taken while every slot is busy and outlives it while it waits for one: whatever becomes
     # of that message, the queue is served again as soon as a slot is free
     for kind in ("mem", "redis", "rabbit"):
@@ -218,9 +225,18 @@ async def scenario(loop, case, out, stats, fps, samples):
                          "timeout": 1.0 if hangs else 60.0})
         arr = case["arr"]
         enq_at = {}
+        if case.get("slow_hook"):
+            stats["runs_with_a_slow_hook_after_every_received_message"] += 1
+
+            async def after_consume():
+                await asyncio.sleep(case["slow_hook"])
+
+            w.conn.middleware.add_subscriber(after_consume)
+        from repid import PrioritiesT
 
         async def enq(j):
-            await w.job(j["name"], j["id"], j["script"], queue=j["queue"], retries=j["retries"], timeout=timedelta(seconds=j["timeout"]), store_result=False).enqueue()
+            kwp = {"priority": [PrioritiesT.HIGH, PrioritiesT.MEDIUM, PrioritiesT.LOW][int(j["id"][1:]) % 3]} if case.get("prios") else {}
+            await w.job(j["name"], j["id"], j["script"], queue=j["queue"], retries=j["retries"], timeout=timedelta(seconds=j["timeout"]), store_result=False, **kwp).enqueue()
             enq_at[j["id"]] = loop.time()
 
         pre = jobs if arr == "before" else jobs[: max(1, min(len(jobs) // 3, limit + 1))]
